@@ -232,14 +232,49 @@ def has_tab(case):
     return "\\t" in json.dumps(case["bodies"])
 
 
+def case_env(case):
+    """env.py configuration of a case (older stored cases carry literal_binds / per_migration at top level)"""
+    env = dict(case.get("env") or {})
+    for k in ("literal_binds", "per_migration"):
+        if k in case and k not in env:
+            env[k] = case[k]
+    return I.full_env(env)
+
+
+def model_env(env):
+    """does the Lean model describe the script of this env variant?  (default version table; no BEGIN/COMMIT framing)"""
+    return (env["version_table"] == "alembic_version" and env["version_table_pk"] and not env["version_table_schema"]
+            and not env["transactional_ddl"])
+
+
+def gen_env(rng, mode, case):
+    has_auto = any(o["op"] == "autocommit" for b in case["bodies"].values() for side in ("up", "down") for o in b[side])
+    env = {
+        "literal_binds": rng.random() < 0.7,
+        "per_migration": rng.random() < 0.3,
+        "transactional_ddl": rng.choice([None, None, None, None, None, None, True, True, False]),
+        "version_table": rng.choice(["alembic_version"] * 8 + ["my_versions", "Version", "ver;sion tbl"]),
+        "version_table_pk": rng.random() >= 0.15,
+        "version_table_schema": "main" if rng.random() < 0.1 else None,
+        "output_encoding": "utf-8" if rng.random() < 0.15 else None,
+        # (with an autocommit_block in a body this combination is known finding C12-AUTOCOMMIT-EXT: kept rare)
+        "external_txn": mode == "fake" and rng.random() < (0.02 if has_auto else 0.2),
+        "callbacks": rng.random() < 0.2,
+        "base_prefix": rng.random() < 0.3,
+        "tag": "c12 tag" if mode == "real" and rng.random() < 0.2 else None,
+        "buffer_in_env": mode == "real" and rng.random() < 0.2,
+        "start_in_env": mode == "real" and rng.random() < 0.3,
+    }
+    return env
+
+
 def execute_case(case, mode):
     tmp = tempfile.mkdtemp(prefix="c12_")
     try:
         if mode == "real":
-            r = I.RealRunner(case["hist"], case["bodies"], tmp)
+            r = I.RealRunner(case["hist"], case["bodies"], tmp, case_env(case))
         else:
-            r = I.FakeRunner(case["hist"], case["bodies"], literal_binds=case.get("literal_binds", True),
-                             per_migration=case.get("per_migration", False))
+            r = I.FakeRunner(case["hist"], case["bodies"], case_env(case))
         try:
             return I.run_case(r, tmp, case["cmd"], case["start"], case["target"])
         finally:
@@ -263,6 +298,8 @@ def judge(res):
         return "fail", "online-error: the online run raised (%s) while the offline script executes" % on, []
     if res.get("exec_error"):
         return "fail", "script-fails: executing the offline script failed while the online run succeeded: %s" % res["exec_error"], []
+    if res.get("cb_online") != res.get("cb_offline"):
+        return "fail", "callbacks: on_version_apply saw different steps online %r and offline %r" % (res.get("cb_online"), res.get("cb_offline")), []
     d = I.diff_dump(res["A"], res["B"])
     if d:
         tags = []
@@ -285,6 +322,10 @@ def one_case(ctx, case, mode, pending):
     ctx.hist("cmd", case["cmd"])
     ctx.hist("n_revs", len(case["hist"]))
     ctx.hist("start_heads", len(case["start"]))
+    env = case_env(case)
+    for k in ("literal_binds", "per_migration", "transactional_ddl", "version_table", "version_table_pk", "version_table_schema",
+              "output_encoding", "external_txn", "callbacks"):
+        ctx.hist("env." + k, env[k])
     status, what, tags = judge(res)
     ctx.hist("status", status if status != "skip" else "skip:" + what.split(":")[0])
     inp = {"case": case, "mode": mode}
@@ -299,6 +340,13 @@ def one_case(ctx, case, mode, pending):
             # narrow test for C12-BINDTEXT: the same case with the bind-looking tokens escaped (\:name)
             if judge(execute_case(neutralise_bindtokens(case), mode))[0] == "ok":
                 tags = tags + ["bindtext-only"]
+        if case_env(case)["external_txn"] and res.get("online_error", "") and res["online_error"].startswith("AssertionError") \
+                and any(o["op"] == "autocommit" for b in case["bodies"].values() for side in ("up", "down") for o in b[side]):
+            # narrow test for C12-AUTOCOMMIT-EXT: the same case when alembic owns the transaction
+            c2 = copy.deepcopy(case)
+            c2["env"] = dict(c2.get("env") or {}, external_txn=False)
+            if judge(execute_case(c2, mode))[0] == "ok":
+                tags = tags + ["autocommit-external-only"]
         het = hetero_ops(case)
         if het:
             # narrow test for C12-HETERO: the same case with those bulk_inserts executed row by row
@@ -339,7 +387,7 @@ def flush(ctx, pending):
         ops.append({"op": "off.split", "text": cps(res["script"])})
         lin = linear_query(case, res)
         ops.append(lin[0] if lin else {"op": "off.skip"})
-        inlang = all(G.in_language(b["up"]) and G.in_language(b["down"]) for b in case["bodies"].values())
+        inlang = model_env(case_env(case)) and all(G.in_language(b["up"]) and G.in_language(b["down"]) for b in case["bodies"].values())
         if inlang:
             base = {"start": [cps(x) for x in case["start"]], "steps": steps_json(case, res["steps_offline"])}
             ops.append({"op": "off.emit", **base})
@@ -404,10 +452,85 @@ def flush(ctx, pending):
     pending.clear()
 
 
+# ---------------------------------------------------------------------------------------
+# fixed battery: env.py configuration variants x (linear | merged) history x upgrade/downgrade ranges
+
+
+def _v(k, v=None):
+    return {"k": k} if v is None else {"k": k, "v": v}
+
+
+def battery_cases():
+    note_cols = [{"name": "id", "type": "Integer", "nullable": False, "pk": True},
+                 {"name": "Bo dy", "type": "String(50)", "nullable": True, "index": True},
+                 {"name": "s", "type": "Text", "nullable": True, "default": {"kind": "str", "v": "d'flt"}}]
+    bcols = [{"name": c["name"], "type": c["type"]} for c in note_cols]
+    a_up = [{"op": "create_table", "name": "no;te", "cols": note_cols, "checks": [{"text": "id >= 0", "name": "ck_note"}]},
+            {"op": "bulk_insert", "table": "no;te", "cols": bcols, "multiinsert": True,
+             "rows": [{"id": _v("int", 1), "Bo dy": _v("str", "ü;--'x"), "s": _v("null")}, {"id": _v("int", 2), "Bo dy": _v("str", "日本\n"), "s": _v("str", "\\")}]}]
+    b_up = [{"op": "autocommit", "ops": [{"op": "execute", "text": "INSERT INTO \"no;te\" (id, \"Bo dy\") VALUES (3, 'in \\:block')"}]},
+            {"op": "add_column", "table": "no;te", "col": {"name": "extra", "type": "Integer", "nullable": False, "default": {"kind": "text", "v": "7"}}},
+            {"op": "bulk_insert", "table": "no;te", "cols": bcols + [{"name": "extra", "type": "Integer"}], "multiinsert": False,
+             "rows": [{"id": _v("int", 4), "Bo dy": _v("str", "after block")}, {"id": _v("int", 5), "extra": _v("int", -1), "s": _v("null")}]}]
+    c_up = [{"op": "create_index", "name": "ix expr", "table": "no;te", "cols": [{"expr": "lower(\"Bo dy\")"}, "id"], "unique": False, "where": "id > 1"},
+            {"op": "execute", "text": "UPDATE \"no;te\" SET s = 'c%' WHERE id = 1", "via": "context", "execution_options": {"c12_marker": 1}}]
+    m_up = [{"op": "bulk_insert", "table": "no;te", "cols": bcols, "multiinsert": True, "rows": [{"id": _v("int", 9), "Bo dy": _v("str", "merged")}]}]
+    bodies = {
+        "a1": {"up": a_up, "down": [{"op": "drop_table", "name": "no;te"}]},
+        "b2": {"up": b_up, "down": [{"op": "drop_column", "table": "no;te", "col": "extra"}]},
+        "c3": {"up": c_up, "down": [{"op": "drop_index", "name": "ix expr", "table": "no;te"}]},
+        "m4": {"up": m_up, "down": [{"op": "execute", "text": "DELETE FROM \"no;te\" WHERE id = 9"}]},
+    }
+    lin = [{"id": "a1", "down": [], "deps": [], "labels": []}, {"id": "b2", "down": ["a1"], "deps": [], "labels": []},
+           {"id": "c3", "down": ["b2"], "deps": [], "labels": []}]
+    mrg = [{"id": "a1", "down": [], "deps": [], "labels": []}, {"id": "b2", "down": ["a1"], "deps": [], "labels": []},
+           {"id": "c3", "down": ["a1"], "deps": [], "labels": []}, {"id": "m4", "down": ["b2", "c3"], "deps": [], "labels": []}]
+    # in the merged history c3 must not depend on b2's objects: it gets its own body
+    mb = dict(bodies)
+    mb["c3"] = {"up": [{"op": "execute", "text": "UPDATE \"no;te\" SET s = 'c3' WHERE id = 2", "as_text": True}], "down": []}
+    envs = [
+        {}, {"literal_binds": False}, {"per_migration": True}, {"transactional_ddl": True},
+        {"transactional_ddl": True, "per_migration": True, "literal_binds": False}, {"transactional_ddl": False},
+        {"version_table": "my_versions", "version_table_pk": False}, {"version_table": "ver;sion tbl", "literal_binds": False},
+        {"version_table_schema": "main", "literal_binds": False}, {"output_encoding": "utf-8", "literal_binds": False},
+        {"callbacks": True, "per_migration": True}, {"external_txn": True, "literal_binds": False},
+        {"base_prefix": True, "transactional_ddl": True, "literal_binds": False},
+        {"tag": "t", "buffer_in_env": True, "start_in_env": True, "output_encoding": "utf-8"},
+    ]
+    out = []
+    for k, env in enumerate(envs):
+        def strip(b):  # an autocommit_block inside a caller-owned transaction is known finding C12-AUTOCOMMIT-EXT
+            if not env.get("external_txn"):
+                return b
+            return {r: {side: list(I.flat_ops(x[side])) for side in ("up", "down")} for r, x in b.items()}
+
+        mode = "fake" if env.get("external_txn") or k % 2 else "real"
+        out.append(({"shape": "linear", "hist": lin, "bodies": strip(bodies), "cmd": "upgrade", "start": [], "target": "heads", "env": env}, mode))
+        out.append(({"shape": "linear", "hist": lin, "bodies": strip(bodies), "cmd": "downgrade", "start": ["c3"], "target": "a1", "env": env}, mode))
+        if env.get("start_in_env"):
+            out.append(({"shape": "linear", "hist": lin, "bodies": strip(bodies), "cmd": "upgrade", "start": ["a1"], "target": "c3", "env": env}, "real"))
+        out.append(({"shape": "merged", "hist": mrg, "bodies": strip(mb), "cmd": "upgrade", "start": ["b2", "c3"], "target": "heads", "env": env}, "fake"))
+        out.append(({"shape": "merged", "hist": mrg, "bodies": strip(mb), "cmd": "downgrade", "start": ["m4"], "target": "base", "env": env}, mode))
+    # malformed stream: rows that are not a list / not dicts raise TypeError online and offline alike
+    for bad in ("tuple", "rowlist"):
+        b2 = json.loads(json.dumps(bodies))
+        b2["a1"]["up"][1]["malformed"] = bad
+        out.append(({"shape": "linear", "hist": lin[:1], "bodies": b2, "cmd": "upgrade", "start": [], "target": "heads", "env": {}}, "fake"))
+    return out
+
+
+def run_battery(ctx, pending):
+    for case, mode in battery_cases():
+        ctx.hist("battery", "case")
+        one_case(ctx, json.loads(json.dumps(case)), mode, pending)
+
+
 def run(ctx, n_cases=None, rng_name="main"):
     rng = ctx.rng(rng_name)
-    n = n_cases or (3000 if ctx.thorough else 260)
+    n = n_cases or (3000 if ctx.thorough else 230)
     pending = []
+    if rng_name == "main":
+        run_battery(ctx, pending)
     for i in range(n):
         mode = "real" if rng.random() < 0.3 else "fake"
         lang_only = rng.random() < 0.35
@@ -417,9 +540,7 @@ def run(ctx, n_cases=None, rng_name="main"):
         case = G.gen_case(rng, 9 if ctx.thorough else 6, real=(mode == "real"), lang_only=lang_only, tabs=tabs, hetero=hetero,
                           bindtext=bindtext)
         case["lang_only"] = lang_only
-        if mode == "fake":
-            case["literal_binds"] = rng.random() < 0.7
-            case["per_migration"] = rng.random() < 0.3
+        case["env"] = gen_env(rng, mode, case)
         one_case(ctx, case, mode, pending)
         if len(pending) >= 100:
             flush(ctx, pending)
@@ -443,6 +564,8 @@ def classify(failure):
         return "C12-HETERO"
     if "bindtext-only" in tags and has_bindtoken(case):
         return "C12-BINDTEXT"
+    if "autocommit-external-only" in tags:
+        return "C12-AUTOCOMMIT-EXT"
     return None
 
 
